@@ -72,7 +72,16 @@ func runFM(tb stat.TB, c fmCase, id, check string) {
 				fullWithFree = true
 			}
 			before := fm.Count()
+			liveBefore := fm.VerifHandlePaths()
 			h := fm.Allocate(absnfs.VerifNewNode(fs, p))
+			if id == "C06" {
+				if g, was := liveBefore[h]; was && g != p {
+					// not the documented recycling of a freed id: the value was live for another path a moment ago
+					if stat.Violate(tb, id, check, "live-handle-value-issued-for-another-path", c, "op#%d Allocate(%s) returned %d, which was live for %s immediately before", i, p, h, g) {
+						return
+					}
+				}
+			}
 			if fm.Count() <= before && !live0 {
 				evictions = true
 			}
@@ -244,6 +253,11 @@ func runFH(tb stat.TB, c fhCase, id, check string) {
 			}
 		}
 		if id == "C06" {
+			if g, seen := ghost[h]; seen && g != p && preLive != nil && preLive[g] && last[g] == h {
+				// a single-allocation request cannot have freed the id it returns: this is not the documented
+				// recycling of a freed id, the value was live for another path when the request arrived
+				return stat.Violate(tb, id, check, "live-handle-value-issued-for-another-path", c, "op#%d %s: value %d was live for %s when the request arrived and was issued for %s", i, via, h, g, p)
+			}
 			if g, seen := ghost[h]; seen && g != p {
 				sig := "handle-value-reissued-after-eviction-or-release"
 				if gepoch[h] < epoch {
